@@ -20,6 +20,67 @@ type rootInfo struct {
 	Prefix   string // leaf name = Prefix + path
 }
 
+// PureLibrary: standard-library functions that are deterministic functions
+// of their arguments with no effect on program state (their results are
+// opaque to the analysis; they are typically used to format a log message).
+func PureLibrary(name string) bool {
+	for _, p := range []string{"strings.", "strconv.", "encoding/hex.", "unicode.", "unicode/utf8.", "math.", "bytes.", "errors.New", "fmt.Sprintf", "fmt.Sprint", "fmt.Sprintln", "fmt.Errorf"} {
+		if strings.HasPrefix(name, p) {
+			return true
+		}
+	}
+	return false
+}
+
+// SiteLog records the value-based verdicts on one potentially panicking instruction.
+type SiteLog struct {
+	OK      int    // executions under which the failing condition is unsatisfiable
+	Bad     int    // executions under which it is satisfiable
+	Witness string // a state making it fail
+	What    string
+}
+
+// site records a verdict for the current instruction: fail is the condition
+// under which it would panic.
+func (in *Interp) site(what string, fail bdd.Node) {
+	if in.curInstr == nil || in.Sites == nil {
+		return
+	}
+	l := in.Sites[in.curInstr]
+	if l == nil {
+		l = &SiteLog{What: what}
+		in.Sites[in.curInstr] = l
+	}
+	bad := in.C.M.And(in.curPred, fail)
+	if bad == bdd.False {
+		l.OK++
+		return
+	}
+	l.Bad++
+	if l.Witness == "" {
+		w, _ := in.C.Witness(bad)
+		l.Witness = what + " can fail in state {" + strings.Join(in.C.DescribeAssignment(w), " ") + "}"
+	}
+}
+
+func (in *Interp) nilOf(v Value) (bdd.Node, bool) {
+	switch x := v.(type) {
+	case *Ptr:
+		return x.Nil, true
+	case *Iface:
+		return x.Nil, true
+	case *Map:
+		return x.Nil, true
+	case *MuxV:
+		a, ok1 := in.nilOf(x.A)
+		b, ok2 := in.nilOf(x.B)
+		if ok1 && ok2 {
+			return in.C.M.Ite(x.P, a, b), true
+		}
+	}
+	return bdd.False, false
+}
+
 // ModelFunc models an external function (st is the state current at the call).
 type ModelFunc func(in *Interp, args []Value, guard bdd.Node, st *State, pos string) (Value, bool)
 
@@ -69,6 +130,10 @@ type Interp struct {
 	// callback may legitimately change).
 	AfterEvent func(in *Interp, st *State, guard bdd.Node)
 
+	// Sites logs, per instruction that can panic, whether the failing
+	// condition was ever satisfiable under the path predicate (C12).
+	Sites    map[ssa.Instruction]*SiteLog
+	curInstr ssa.Instruction
 	// curPred is the path predicate of the block being interpreted.
 	curPred bdd.Node
 	// LoopBodies switches on loop-body summarisation: a loop is entered with
@@ -282,6 +347,7 @@ func (in *Interp) initLeaf(root string, ri *rootInfo, path string, t types.Type)
 func (in *Interp) Load(st *State, pv Value, t types.Type, pos token.Pos) Value {
 	switch p := pv.(type) {
 	case *Ptr:
+		in.site("nil dereference (load)", p.Nil)
 		if p.Nil == bdd.True {
 			in.undecided(pos, "load through a nil pointer")
 		}
@@ -342,6 +408,7 @@ func (in *Interp) loadAt(st *State, root string, ri *rootInfo, path string, t ty
 func (in *Interp) Store(st *State, pv Value, t types.Type, v Value, g bdd.Node, pos token.Pos) {
 	switch p := pv.(type) {
 	case *Ptr:
+		in.site("nil dereference (store)", p.Nil)
 		if p.Nil == bdd.True {
 			in.undecided(pos, "store through a nil pointer")
 		}
@@ -668,6 +735,8 @@ func (in *Interp) callBound(fn *ssa.Function, args []Value, bindings []Value, gu
 		}
 		for _, instr := range b.Instrs {
 			in.Instrs++
+			in.curInstr = instr
+			in.curPred = pred
 			switch x := instr.(type) {
 			case *ssa.Phi:
 				if ls := loopOf[b]; ls != nil {
@@ -834,6 +903,7 @@ func (in *Interp) exec(fr *frame, instr ssa.Instruction, pred bdd.Node, st *Stat
 		if !ok {
 			in.undecided(x.Pos(), "field address of %T", base)
 		}
+		in.site("nil dereference (field of a nil pointer)", p.Nil)
 		stt := x.X.Type().Underlying().(*types.Pointer).Elem().Underlying().(*types.Struct)
 		fd := stt.Field(x.Field)
 		fr.vals[x] = &Ptr{Root: p.Root, Path: joinPath(p.Path, fd.Name(), fd.Embedded()), Nil: bdd.False}
@@ -976,6 +1046,7 @@ func (in *Interp) exec(fr *frame, instr ssa.Instruction, pred bdd.Node, st *Stat
 		if !ok || !ok2 || !ok3 || m.Sym == "" {
 			in.undecided(x.Pos(), "map update outside the modelled fragment")
 		}
+		in.site("insert into a nil map", m.Nil)
 		in.T.Emit(pred, "map.set", m.Sym, []dom.BV{k, v}, 0, in.P.Pos(x.Pos()))
 	case *ssa.MakeMap:
 		in.allocN++
@@ -1013,6 +1084,7 @@ func (in *Interp) indexAddr(fr *frame, x *ssa.IndexAddr) Value {
 		in.undecided(x.Pos(), "non-integer index")
 	}
 	k, isConst := iv.IsConst()
+	in.indexSite(x, base, iv)
 	switch b := base.(type) {
 	case *Ptr: // pointer to array
 		if !isConst {
@@ -1431,7 +1503,7 @@ func (in *Interp) callInstr(fr *frame, x *ssa.Call, pred bdd.Node, st *State) Va
 	if strings.HasSuffix(name, ".init") && len(args) == 0 {
 		return nil // initialisation of an imported package
 	}
-	if in.LenientExternals {
+	if in.LenientExternals || PureLibrary(name) {
 		res := fn.Signature.Results()
 		switch res.Len() {
 		case 0:
@@ -1464,6 +1536,7 @@ func (in *Interp) invoke(recv Value, recvType types.Type, method *types.Func, ar
 	if !ok {
 		in.undecided(pos, "invoke on %T", recv)
 	}
+	in.site("method call on a nil interface", iv.Nil)
 	if iv.Nil == bdd.True {
 		in.undecided(pos, "invoke on a nil interface")
 	}
@@ -1678,4 +1751,54 @@ func (in *Interp) copyBuiltin(args []Value, pred bdd.Node, st *State, x *ssa.Cal
 	in.T.Emit(pred, "slice.copy<-"+srcID, dst.Sym, []dom.BV{lo, dst.Len, src.Len}, 0, in.P.Pos(x.Pos()))
 	_ = ew
 	return n, true
+}
+
+// indexSite logs the bounds verdict of an index expression.
+func (in *Interp) indexSite(x *ssa.IndexAddr, base Value, iv dom.BV) {
+	if in.Sites == nil {
+		return
+	}
+	C := in.C
+	w := in.intWidth()
+	_, signed, _ := in.width(x.Index.Type())
+	idx := C.Resize(iv, w, signed)
+	neg := bdd.False
+	if signed {
+		neg = idx[w-1]
+	}
+	var length dom.BV
+	switch b := base.(type) {
+	case *Ptr:
+		if at, ok := x.X.Type().Underlying().(*types.Pointer).Elem().Underlying().(*types.Array); ok {
+			length = C.Const(w, uint64(at.Len()))
+		}
+		in.site("nil dereference (array pointer)", b.Nil)
+	case *Slice:
+		length = b.Len
+	}
+	if length == nil {
+		return
+	}
+	fail := C.M.Or(neg, C.M.Not(C.Ult(idx, length)))
+	in.site("index out of range", fail)
+}
+
+// Probe interprets fn under guard on the given state, discarding results;
+// undecided constructs inside it are swallowed (the site log then simply has
+// no verdict for what was not reached).
+func (in *Interp) Probe(fn *ssa.Function, args []Value, guard bdd.Node, st *State) {
+	depth, instr, pred := in.depth, in.curInstr, in.curPred
+	defer func() {
+		in.depth, in.curInstr, in.curPred = depth, instr, pred
+		if r := recover(); r != nil {
+			if _, ok := r.(*Undecided); ok {
+				return
+			}
+			if _, ok := r.(*bdd.Budget); ok {
+				return
+			}
+			panic(r)
+		}
+	}()
+	in.call(fn, args, guard, st, fn.Pos())
 }
